@@ -171,19 +171,15 @@ theorem tfinal_eq (c : Cfg R) (cd : KVCodec K V) (s : St R) (ops : List (TyOp K 
     tfinal c cd s ops = final { c with dec := cd.dec } s (ops.map (encOp cd)) := by
   simp [tfinal, final, tstep, List.foldl_map]
 
-/-- **Typed refinement** (`Get`, `Has`, `Delete`): with round-tripping serializers the typed surface answers what the
-plain typed map `K → Option V` says, for every key whose serializer succeeds. -/
-theorem typed_refines [DecidableEq K] (c : Cfg R) (cd : KVCodec K V) (hk : KeyRT cd) (hv : ValRT cd)
-    (ops : List (TyOp K V)) (hc : CleanFrom { c with dec := cd.dec } init (ops.map (encOp cd)))
+/-- Typed refinement at any state whose trie holds the stored plain map of the typed history. -/
+theorem typed_refines_at [DecidableEq K] (c : Cfg R) (cd : KVCodec K V) (hk : KeyRT cd) (hv : ValRT cd)
+    (ops : List (TyOp K V)) (s : St R)
+    (hget0 : ∀ kb, s.trie.get kb = Spec.final (ops.map (encOp cd)) kb)
     (k : K) (kb : Key) (hkb : cd.kenc k = some kb) :
-    let s := tfinal c cd init ops
     (tstep c cd s (.get k)).2 = (match tspec cd ops k with | none => .out .notfound | some v => .found v) ∧
     (tstep c cd s (.has k)).2 = .out (.bool (tspec cd ops k).isSome) ∧
     (tstep c cd s (.del k)).2 = .out (.deleted (tspec cd ops k).isSome) := by
-  intro s
-  have hs : s = final { c with dec := cd.dec } init (ops.map (encOp cd)) := tfinal_eq c cd init ops
-  have hget : s.trie.get kb = Spec.final (ops.map (encOp cd)) kb := by
-    rw [hs]; exact congrFun (final_abs_init _ _ hc) kb
+  have hget := hget0 kb
   have hrel := rel_final hk ops
   rw [hrel.agree k kb hkb] at hget
   cases hm : tspec cd ops k with
@@ -208,6 +204,20 @@ theorem typed_refines [DecidableEq K] (c : Cfg R) (cd : KVCodec K V) (hk : KeyRT
         have : (kvGet kb s.trie.mem).isSome = true := by simpa [has, Trie.get] using hh
         simp [Trie.delete, this]
       simp [tstep, encOp, hkb, step, hh, hdel, tout]
+
+/-- **Typed refinement** (`Get`, `Has`, `Delete`): with round-tripping serializers the typed surface answers what the
+plain typed map `K → Option V` says, for every key whose serializer succeeds. -/
+theorem typed_refines [DecidableEq K] (c : Cfg R) (cd : KVCodec K V) (hk : KeyRT cd) (hv : ValRT cd)
+    (ops : List (TyOp K V)) (hc : CleanFrom { c with dec := cd.dec } init (ops.map (encOp cd)))
+    (k : K) (kb : Key) (hkb : cd.kenc k = some kb) :
+    let s := tfinal c cd init ops
+    (tstep c cd s (.get k)).2 = (match tspec cd ops k with | none => .out .notfound | some v => .found v) ∧
+    (tstep c cd s (.has k)).2 = .out (.bool (tspec cd ops k).isSome) ∧
+    (tstep c cd s (.del k)).2 = .out (.deleted (tspec cd ops k).isSome) := by
+  intro s
+  have hs : s = final { c with dec := cd.dec } init (ops.map (encOp cd)) := tfinal_eq c cd init ops
+  exact typed_refines_at c cd hk hv ops s
+    (fun kb' => by rw [hs]; exact congrFun (final_abs_init _ _ hc) kb') k kb hkb
 
 /-! ## `Stream` -/
 
